@@ -211,12 +211,13 @@ pub fn pmap<T: Sync, R: Send>(items: &[T], threads: usize, deadline: Option<Inst
                             break;
                         }
                     }
-                    // grab a small batch
-                    let start = next.fetch_add(16, Ordering::Relaxed);
+                    // grab a small batch (single items when there are few, heavy ones)
+                    let bs = if n < 4096 { 1 } else { 16 };
+                    let start = next.fetch_add(bs, Ordering::Relaxed);
                     if start >= n {
                         break;
                     }
-                    for i in start..(start + 16).min(n) {
+                    for i in start..(start + bs).min(n) {
                         local.push((i, f(&items[i])));
                     }
                     if local.len() >= 256 {
